@@ -1,9 +1,11 @@
 package main
 
 import (
+	"bufio"
 	"context"
 	"crypto/tls"
 	"fmt"
+	"net"
 	"net/http"
 	"os"
 	"time"
@@ -132,17 +134,47 @@ func buildHandler(cfg *config.Config, lb *loadbalancer.LoadBalancer) (http.Handl
 // response and the copy of the response body all observe it, so a backend that
 // stalls after sending its headers can no longer hold a request (and a client
 // connection) forever. Responses are not buffered, unlike http.TimeoutHandler.
-// Upgraded connections (WebSocket) are long-lived by design and are exempt.
+// Upgraded connections (WebSocket) are long-lived by design and are exempt - but
+// only once they are upgraded: a request that merely asks for an upgrade is an
+// ordinary exchange until the backend has switched protocols, and is bounded
+// like any other (the backend may answer it with a plain response and stall).
 func withHandlerTimeout(timeout time.Duration, next http.Handler) http.Handler {
 	return http.HandlerFunc(func(w http.ResponseWriter, r *http.Request) {
-		if r.Header.Get("Upgrade") != "" {
-			next.ServeHTTP(w, r)
+		if r.Header.Get("Upgrade") == "" {
+			ctx, cancel := context.WithTimeout(r.Context(), timeout)
+			defer cancel()
+			next.ServeHTTP(w, r.WithContext(ctx))
 			return
 		}
-		ctx, cancel := context.WithTimeout(r.Context(), timeout)
+		ctx, cancel := context.WithCancel(r.Context())
 		defer cancel()
-		next.ServeHTTP(w, r.WithContext(ctx))
+		timer := time.AfterFunc(timeout, cancel)
+		defer timer.Stop()
+		next.ServeHTTP(&upgradeAwareWriter{ResponseWriter: w, upgraded: func() { timer.Stop() }}, r.WithContext(ctx))
 	})
+}
+
+// upgradeAwareWriter reports when the connection is taken over for a tunnel
+// (the reverse proxy hijacks it after the backend's 101).
+type upgradeAwareWriter struct {
+	http.ResponseWriter
+	upgraded func()
+}
+
+func (u *upgradeAwareWriter) Unwrap() http.ResponseWriter { return u.ResponseWriter }
+
+func (u *upgradeAwareWriter) Flush() {
+	if f, ok := u.ResponseWriter.(http.Flusher); ok {
+		f.Flush()
+	}
+}
+
+func (u *upgradeAwareWriter) Hijack() (net.Conn, *bufio.ReadWriter, error) {
+	conn, rw, err := http.NewResponseController(u.ResponseWriter).Hijack()
+	if err == nil {
+		u.upgraded()
+	}
+	return conn, rw, err
 }
 
 // createHTTPServer creates and configures the main HTTP server
